@@ -27,6 +27,11 @@ var (
 	// Quarantine is the number of released buffers held back (0 = none:
 	// buffers are reusable at once, as shipped, but still poisoned).
 	Quarantine int
+	// NoPoison: released buffers keep their contents (as shipped), so that a
+	// reader which runs past the end of what it was given finds the previous
+	// owner's data there and not a pattern no parser accepts.  Ownership is
+	// still tracked.
+	NoPoison bool
 	// Enabled turns tracking on.
 	Enabled bool
 	// PassDoubleRelease: a second release of a buffer is reported and then
@@ -139,6 +144,11 @@ func Release(b []byte) {
 	state[p] = 2
 	site := caller()
 	relSite[p] = site
+	if NoPoison {
+		mu.Unlock()
+		bytespool.Release(b)
+		return
+	}
 	for i := range full {
 		full[i] = PoisonRelease
 	}
